@@ -14,10 +14,16 @@ from engine import facts  # noqa: E402
 os.environ["HN_NO_INLINE"] = "1"
 d, info = facts.acquire()
 paths = []
+closures = []
 meta = {}
 for c in facts.CRATES:
     raw = json.load(open(os.path.join(d, c + ".json")))
     for b in raw["bodies"]:
+        if b["kind"] == "Closure":
+            # closures of the reference tree, identified by what they are (closure numbers shift when one is added before them):
+            # a closure no listed one accounts for is new code (engine/inline.desugar_combinators)
+            from engine import inline as _inline
+            closures.append([b["path"].rsplit("::{closure#", 1)[0], _inline.closure_signature(b)])
         if b["kind"] in ("Fn", "AssocFn"):
             paths.append(b["path"])
             # what identifies the function when only its name or module changes: crate, signature, impl type, trait
@@ -27,5 +33,5 @@ dirty = subprocess.check_output(["git", "-C", facts.REPO, "status", "--porcelain
 if dirty:
     sys.exit("refusing: /repo working tree is not clean")
 out = os.path.join(facts.VERIF, "tables", "reference_functions.json")
-json.dump({"reference_commit": head, "count": len(paths), "paths": sorted(paths), "meta": meta}, open(out, "w"), indent=0)
+json.dump({"reference_commit": head, "count": len(paths), "paths": sorted(paths), "closures": sorted(closures, key=str), "meta": meta}, open(out, "w"), indent=0)
 print("wrote", out, len(paths), "functions at", head)
